@@ -186,17 +186,33 @@ fn ls(t: &mut Tape, max_bytes: usize) -> String {
 
 impl MindustryState {
     pub fn generate(t: &mut Tape) -> Self {
-        Self {
-            host: ls(t, 60),
-            map: ls(t, 40),
+        let mut st = Self {
+            // every string has a one-byte length prefix: up to 255 bytes each
+            host: ls(t, 255),
+            map: ls(t, 255),
             players: gen::i32_(t),
             wave: gen::i32_(t),
             version: gen::i32_(t),
-            version_type: ls(t, 20),
+            version_type: ls(t, 255),
             mode: t.draw(DATA, 5) as u8,
             limit: gen::i32_(t),
-            description: ls(t, 100),
-            mode_name: (t.draw(DATA, 2) == 1).then(|| ls(t, 30)),
+            description: ls(t, 255),
+            mode_name: (t.draw(DATA, 2) == 1).then(|| ls(t, 255)),
+        };
+        st.fit();
+        st
+    }
+
+    /// The server writes its reply into a 500-byte buffer (and the client reads 500 bytes): shorten the
+    /// longest string until the reply fits.
+    pub fn fit(&mut self) {
+        while self.datagram().len() > 500 {
+            let mut all: Vec<&mut String> = vec![&mut self.host, &mut self.map, &mut self.version_type, &mut self.description];
+            if let Some(m) = self.mode_name.as_mut() {
+                all.push(m);
+            }
+            let longest = all.into_iter().max_by_key(|s| s.len()).unwrap();
+            longest.pop();
         }
     }
 
@@ -297,6 +313,11 @@ impl EcoState {
             // finite doubles with an exact decimal representation
             let v = (gen::i32_(t) as f64) / 8.0;
             m.insert((*k).to_string(), json!(v));
+        }
+        if t.draw(DATA, 6) == 0 {
+            // a long description: the body is then well above the HTTP client's 5012-byte allocation hint
+            let long = gen::string(t, &StrOpts { max_len: 9000, forbid: &[], unicode: true, control: true, min_len: 5100 });
+            m.insert("DetailedDescription".into(), json!(long));
         }
         let n = gen::count(t, 100);
         m.insert("OnlinePlayersNames".into(), Value::Array((0 .. n).map(|_| json!(s(t))).collect()));
